@@ -178,6 +178,21 @@ class EncoderLayout:
         """Segments produced by an expression that evaluates to a byte sequence."""
         if isinstance(n, ast.BinOp) and isinstance(n.op, ast.Add):
             return self.bufexpr(n.left) + self.bufexpr(n.right)
+        if isinstance(n, ast.Call) and isinstance(n.func, ast.Attribute) and n.func.attr == "join" and len(n.args) == 1 \
+                and isinstance(n.func.value, ast.Call) and isinstance(n.func.value.func, ast.Name) and n.func.value.func.id in ("bytearray", "bytes") \
+                and not n.func.value.args and isinstance(n.args[0], (ast.ListComp, ast.GeneratorExp)) and len(n.args[0].generators) == 1:
+            # bytearray().join(<bytes of x> for x in self.items): the loop that appends them one after the other
+            g = n.args[0].generators[0]
+            if is_self_attr(g.iter) and isinstance(g.target, ast.Name) and not g.ifs:
+                self.fields_read.add(g.iter.attr)
+                self.loopvars[g.target.id] = g.iter.attr
+                try:
+                    segs = self.bufexpr(n.args[0].elt)
+                finally:
+                    self.loopvars.pop(g.target.id, None)
+                self.iter_order = getattr(self, "iter_order", [])
+                self.iter_order.append(U(g.iter))
+                return [("repeat", g.iter.attr, g.target.id, tuple(segs))]
         if isinstance(n, ast.Call) and isinstance(n.func, ast.Name):
             f = n.func.id
             self.calls.add(f)
@@ -270,6 +285,10 @@ class EncoderLayout:
                     self.bufs[t.id] = self.bufexpr(v)
                     self.vals.pop(t.id, None)
                     return
+                if isinstance(v, ast.Call) and isinstance(v.func, ast.Attribute) and v.func.attr == "join":
+                    self.bufs[t.id] = self.bufexpr(v)
+                    self.vals.pop(t.id, None)
+                    return
                 if isinstance(v, ast.BinOp) and isinstance(v.op, ast.Add) and any(
                         isinstance(x, ast.Name) and self.canon(x.id) in self.bufs for x in (v.left, v.right)):
                     self.bufs[t.id] = self.bufexpr(v)
@@ -278,6 +297,10 @@ class EncoderLayout:
                 if isinstance(v, ast.Constant) and v.value is None:
                     self.vals[t.id] = ("const", None)
                     return
+                if isinstance(v, (ast.Compare, ast.BoolOp)) or (isinstance(v, ast.UnaryOp) and isinstance(v.op, ast.Not)):
+                    # a local that names a test (hasWill = self.a is not None and ..): guards on it read as that test
+                    self.testvals = getattr(self, "testvals", {})
+                    self.testvals[t.id] = v
                 self.vals[t.id] = self.vdesc(v)
                 return
             if isinstance(t, ast.Tuple) and len(t.elts) == 2 and all(isinstance(x, ast.Name) for x in t.elts) and isinstance(s.value, ast.Call) \
@@ -344,18 +367,29 @@ class EncoderLayout:
         raise AnalysisError("encoder of %s: statement %s not understood" % (self.cls.name, type(s).__name__))
 
     def _snapshot(self):
-        return {k: list(v) for k, v in self.bufs.items()}, dict(self.vals)
+        # names that stand for another buffer are materialised, so that the two arms of an if can be compared name by name
+        bufs = {k: list(v) for k, v in self.bufs.items()}
+        for k in list(self.alias):
+            c = self.canon(k)
+            if c in self.bufs:
+                bufs[k] = list(self.bufs[c])
+        self._alias_snap = dict(self.alias)
+        return bufs, dict(self.vals)
 
     def _guard_text(self, test):
         """Source text of a test with locals that merely name a field (x = self.f) written as the field."""
         al = {k: v[1] for k, v in self.vals.items() if isinstance(v, tuple) and v and v[0] == "field"}
-        if not al:
+        tests = getattr(self, "testvals", {})
+        if not al and not tests:
             return U(test)
+        import copy as _copy0
 
         class R(ast.NodeTransformer):
             def visit_Name(self, n):
                 if n.id in al and isinstance(n.ctx, ast.Load):
                     return ast.Attribute(value=ast.Name(id="self", ctx=ast.Load()), attr=al[n.id], ctx=ast.Load())
+                if n.id in tests and isinstance(n.ctx, ast.Load):
+                    return _copy0.deepcopy(tests[n.id])
                 return n
         import copy as _copy
         return U(ast.fix_missing_locations(R().visit(_copy.deepcopy(test))))
@@ -396,15 +430,27 @@ class EncoderLayout:
             self.guards.pop()
             return
         b0, v0 = self._snapshot()
+        a0 = dict(self.alias)
+        raw0 = {k: list(v) for k, v in self.bufs.items()}
         self.guards.append(gtxt)
         self._run(s.body)
         self.guards.pop()
         b1, v1 = self._snapshot()
-        self.bufs, self.vals = {k: list(v) for k, v in b0.items()}, dict(v0)
+        a1 = dict(self.alias)
+        self.bufs, self.vals, self.alias = {k: list(v) for k, v in raw0.items()}, dict(v0), dict(a0)
         self.guards.append("not (%s)" % gtxt)
         self._run(s.orelse)
         self.guards.pop()
         b2, v2 = self._snapshot()
+        a2 = dict(self.alias)
+        # a name that stands for different buffers in the two arms becomes a buffer of its own (the merge of the two)
+        keep = {k: v for k, v in a1.items() if a2.get(k) == v}
+        for k in set(a1) | set(a2):
+            if k not in keep:
+                b1.setdefault(k, []), b2.setdefault(k, [])
+        for k in keep:
+            b1.pop(k, None), b2.pop(k, None)
+        self.alias = keep
         # merge buffers
         merged = {}
         for k in set(b1) | set(b2):
@@ -453,6 +499,10 @@ class EncoderLayout:
                 mv[k] = ("ifval", gtxt, a, None)
             else:
                 mv[k] = ("ifval", gtxt, a, b)
+        # a name that became a buffer through the merge (field in one arm, conversion in the other) is no longer a plain value
+        for k in merged:
+            if (k in b1) != (k in b2):
+                mv.pop(k, None)
         self.vals = mv
 
     def _for(self, s):
@@ -650,7 +700,11 @@ class DecoderLayout:
         """(source expression, mask on the raw byte, shift, compare) for flag extraction expressions such as
         (x & M) == M, (x & M) != 0, (x & M) >> S, (x >> S) & M, x & M."""
         cmpc = None
-        if isinstance(n, ast.Compare) and len(n.ops) == 1:
+        if isinstance(n, ast.Call) and isinstance(n.func, ast.Name) and n.func.id == "bool" and len(n.args) == 1 and not n.keywords:
+            # bool(x & M)  ==  (x & M) != 0
+            cmpc = ("NotEq", 0)
+            n = n.args[0]
+        elif isinstance(n, ast.Compare) and len(n.ops) == 1:
             ok, c = self.fold(n.comparators[0])
             if ok:
                 cmpc = (type(n.ops[0]).__name__, c)
@@ -716,7 +770,11 @@ class DecoderLayout:
             if isinstance(s.value, ast.Constant):
                 return
             c = s.value
-            # self.topics.append(x)
+            # self.topics.append(x)   (or through a local that names the list: topics = self.topics)
+            if isinstance(c, ast.Call) and isinstance(c.func, ast.Attribute) and c.func.attr == "append" and isinstance(c.func.value, ast.Name) \
+                    and isinstance(self.locals.get(c.func.value.id), dict) and self.locals[c.func.value.id].get("kind") == "selflist":
+                self.rec("append", self.locals[c.func.value.id]["attr"], None, item=self._item_desc(c.args[0]), node=c)
+                return
             if isinstance(c, ast.Call) and isinstance(c.func, ast.Attribute) and c.func.attr == "append" and is_self_attr(c.func.value):
                 self.rec("append", c.func.value.attr, None, item=self._item_desc(c.args[0]), node=c)
                 return
@@ -753,6 +811,9 @@ class DecoderLayout:
                     and isinstance(v.value, ast.Name) and v.value.id in self.cursors:
                 c = self.cursor_of(v)
                 self.cursors[t.id] = c[1]
+                return
+            if isinstance(t, ast.Name) and is_self_attr(v) and v.attr in self.assigned:
+                self.locals[t.id] = {"kind": "selflist", "attr": v.attr, "off": None}
                 return
             if isinstance(t, ast.Name):
                 r = self.read_expr(v, ("local", t.id))
@@ -911,6 +972,8 @@ class DecoderLayout:
         if isinstance(s, ast.While):
             # while len(rest): ... repeated records until the packet is exhausted
             t = s.test
+            if isinstance(t, ast.Name) and t.id in self.cursors:
+                t = ast.Call(func=ast.Name(id="len", ctx=ast.Load()), args=[t], keywords=[])      # while rest:  ==  while len(rest):
             if isinstance(t, ast.Call) and isinstance(t.func, ast.Name) and t.func.id == "len" and isinstance(t.args[0], ast.Name) \
                     and t.args[0].id in self.cursors:
                 cname = t.args[0].id
@@ -946,11 +1009,24 @@ class DecoderLayout:
             return tuple(self._item_desc(e) for e in n.elts)
         if isinstance(n, ast.Name) and n.id in self.locals:
             return self.locals[n.id]
+        b = self.bit_expr(n)
+        if b is not None:
+            # a flag / bit field extracted in place (what a local assigned from the same expression would hold)
+            src = self._bit_source(b[0])
+            if src is not None:
+                return self.rec("bits", ("local", "<item>"), src["off"], source=src, mask=b[1], shift=b[2], cmp=b[3], node=n)
         return {"kind": "expr", "text": U(n)}
 
     def _cond_desc(self, t):
         if isinstance(t, ast.Name) and t.id in self.locals:
             return ("local", self.locals[t.id])
+        b = self.bit_expr(t)
+        if b is not None:
+            # `if flags & M:` - the test a local flag assigned from (flags & M) != 0 would stand for
+            src = self._bit_source(b[0])
+            if src is not None:
+                cmpc = b[3] if b[3] is not None else ("NotEq", 0)
+                return ("local", self.rec("bits", ("local", "<test>"), src["off"], source=src, mask=b[1], shift=b[2], cmp=cmpc, node=t))
         if is_self_attr(t):
             return ("self", t.attr)
         return ("expr", U(t))
